@@ -92,12 +92,7 @@ func runC12(c *CaseCtx) *CaseResult {
 	cc.Phases = scalePhases(ops, []Phase{PhaseGrow, PhaseChurn, PhaseShrink, PhaseGrow, PhaseDrain, PhaseGrow, PhaseChurn}, []int{25, 20, 10, 10, 10, 12, 13})
 
 	updatesAtLimit := 0
-	var installed bool
-	cc.PerOp = func(w *World, root *Node) error {
-		if installed {
-			return nil
-		}
-		installed = true
+	cc.Init = func(w *World, root *Node) {
 		w.ExpectRefusal = func(n *Node, key *Node) bool {
 			if n != root && w.cb.HipClasses == 0 {
 				return false // nested maps use the default digester: no collisions unless the hash input itself collides
@@ -122,9 +117,7 @@ func runC12(c *CaseCtx) *CaseResult {
 			}
 			return uint32(len(l1)-1) >= cc.Limit
 		}
-		return nil
 	}
-	// the first operation runs before PerOp installs the expectation; an empty map cannot collide, so that is sound.
 	cc.Final = func(w *World, root *Node, res *CaseResult) {
 		// updates of existing keys are always accepted, also for digests whose budget is exhausted
 		for _, e := range root.sortedEntries() {
